@@ -399,11 +399,11 @@ def run_atheris(rec):
         os.makedirs(work, exist_ok=True)
         env = dict(os.environ, PYTHONPATH=deps + os.pathsep + VERIF_DIR)
         args = [sys.executable, "-B", script, work, f"-seed={seed_base() % (1 << 31) or 1}",
-                "-runs=400000", "-max_len=4096", "-timeout=60", f"-artifact_prefix={work}/crash-"]
+                "-runs=2000000", "-max_len=4096", "-timeout=60", f"-artifact_prefix={work}/crash-"]
         if use_corpus:
             args.append(os.path.join(VERIF_DIR, "corpus", "C04", "bin"))
         try:
-            p = subprocess.run(args, env=env, capture_output=True, text=True, timeout=1500)
+            p = subprocess.run(args, env=env, capture_output=True, text=True, timeout=2400)
             tail = (p.stderr or "")[-600:]
         except subprocess.TimeoutExpired:
             tail = "campaign hit the wall-clock limit (inconclusive, not a violation)"
